@@ -1485,6 +1485,12 @@ func propC07(r *Run) {
 	}
 
 	c.scanCase("recorded-shape/K7C fasta.fasta", []byte(">d\r\r\nACGT\n"), false)
+	// leaked location-parser frames followed by a field that fails late (F34): correspondence
+	// with the record-scanner model (gb.read, gb.state), and the same texts through the oracle
+	leakCases(r)
+	for _, t := range leakTexts() {
+		c.scanCase("leak-then-rewind", []byte(t), false)
+	}
 	for _, cf := range corpus {
 		c.mutateFile(cf, quick)
 	}
